@@ -11,9 +11,9 @@
    width and height are not zero.  `pix_bytes img` = the RGBA bytes of `img.iter()`.
    `lockstep st s ops`: the terminal reads the bytes of every call of a history; before a call
    that delivers an error response for id it has lost image id (`pre_store`). *)
-From Coq Require Import List Arith NArith Bool.
+From Coq Require Import List Arith NArith Bool Lia.
 From SNT Require Import Surface.Shape Surface.ShapeProofs Image.Kitty Image.KittySpec
-  Image.KittyParse Image.KittyProofs Image.KittyHistory.
+  Image.KittyParse Image.KittyProofs Image.KittyHistory Corr.C11Corr Image.KittyCheck.
 Import ListNotations.
 Local Open Scope N_scope.
 
@@ -138,6 +138,25 @@ Proof.
 Qed.
 
 (* ------------------------------------------------------------------------------------------ *)
+(* (all of it, through the predicate of the check)  `c11_code` is the property predicate that the
+   correspondence check evaluates on the IMPLEMENTATION's bytes (Image/KittySpec.v check_history:
+   parse every call, run the terminal store, no protocol error, content <-> id bijection, transmit
+   exactly when not transmitted since the last error response and then exactly the expected
+   pixels with s, v, placements = old + {(id, pid)}, pid <> 0, (id, position) <-> pid functional
+   and injective, erase removes exactly that placement, a re-transmitted image is re-placed where
+   draw had put it).  The model satisfies it on every case: any images (well formed, content
+   index <-> image id one-to-one, i.e. no hash collision), any history of draw / erase / handle
+   calls, positions with coordinates below 65536 other than the wrap-around corner. *)
+Theorem C11_model_meets_predicate :
+  forall (quiet : bool) (imgs : list c11_img) (contents : list content) (ops : list c11_op),
+  (forall img h c, In (img, h, c) imgs -> image_wf img /\ nth_error contents c = Some (content_rec img)) ->
+  (forall i1 h1 c1 i2 h2 c2, In (i1, h1, c1) imgs -> In (i2, h2, c2) imgs ->
+     (c1 = c2 <-> image_id h1 = image_id h2)) ->
+  Forall (op_ok imgs) ops ->
+  c11_code (Case quiet imgs contents ops (c11_model (Case quiet imgs contents ops []))) = 0.
+Proof. exact model_meets_predicate. Qed.
+
+(* ------------------------------------------------------------------------------------------ *)
 Check C11_payload : forall (img : image) (hash : N) (pos : N * N) (st : kitty),
   image_wf img -> nonempty img -> lookup (image_id hash) (k_imgs st) = None ->
   let id := image_id hash in
@@ -165,6 +184,14 @@ Check C11_pairing : forall (st : kitty) (s : tstore) (img : image) (hash : N) (p
      ~ (pos = (0, 0) /\ pos' = (65535, 65535)) -> ~ (pos = (65535, 65535) /\ pos' = (0, 0)) ->
      In (image_id hash, placement_id pos') (places_of s) ->
      In (image_id hash, placement_id pos') (places_of s')).
+
+Check C11_model_meets_predicate :
+  forall (quiet : bool) (imgs : list c11_img) (contents : list content) (ops : list c11_op),
+  (forall img h c, In (img, h, c) imgs -> image_wf img /\ nth_error contents c = Some (content_rec img)) ->
+  (forall i1 h1 c1 i2 h2 c2, In (i1, h1, c1) imgs -> In (i2, h2, c2) imgs ->
+     (c1 = c2 <-> image_id h1 = image_id h2)) ->
+  Forall (op_ok imgs) ops ->
+  c11_code (Case quiet imgs contents ops (c11_model (Case quiet imgs contents ops []))) = 0.
 
 (* ------------------------------------------------------------------------------------------ *)
 (* non-vacuity *)
@@ -208,3 +235,27 @@ Example C11_once_nonvacuous :
      [(78, 458758); (900477109, 458758)];
      [(900477109, 65538); (78, 458758); (900477109, 458758)]].
 Proof. vm_compute. split; reflexivity. Qed.
+
+(* a case meeting the hypotheses of C11_model_meets_predicate: two images (one a strided view),
+   draws, erases, an error response with and without placement, an OK response, another event *)
+Example C11_model_meets_predicate_nonvacuous :
+  let imgs : list c11_img := [(ex_img, ex_hash, 0%nat); (ex_view, 77, 1%nat)] in
+  let contents := [content_rec ex_img; content_rec ex_view] in
+  let ops := [CDraw 0 (0, 0); CDraw 1 (0, 0); CDraw 0 (5, 7); CErase 0 (Some (0, 0));
+              CResp 900477109 (Some 458758) true; CResp 78 None true; CDraw 1 (65535, 65534);
+              CResp 78 None false; COther; CErase 1 None] in
+  (forall img h c, In (img, h, c) imgs -> image_wf img /\ nth_error contents c = Some (content_rec img)) /\
+  (forall i1 h1 c1 i2 h2 c2, In (i1, h1, c1) imgs -> In (i2, h2, c2) imgs ->
+     (c1 = c2 <-> image_id h1 = image_id h2)) /\
+  Forall (op_ok imgs) ops /\
+  length (c11_model (Case true imgs contents ops [])) = 10%nat.
+Proof.
+  destruct C11_wf_nonvacuous as (W1 & _ & W2 & _ & _).
+  cbv zeta. split; [|split; [|split]].
+  - intros img h c Hin. destruct Hin as [E|[E|[]]]; inversion E; subst; split; try assumption; reflexivity.
+  - intros i1 h1 c1 i2 h2 c2 H1 H2.
+    destruct H1 as [E1|[E1|[]]], H2 as [E2|[E2|[]]]; inversion E1; inversion E2; subst;
+      split; intros X; try reflexivity; try discriminate X; vm_compute in X; discriminate X.
+  - repeat constructor; unfold pos_ok, in_dom; cbn [fst snd length]; repeat split; try lia; try discriminate.
+  - vm_compute. reflexivity.
+Qed.
